@@ -143,6 +143,8 @@ func runC01(p *core.Program, r *core.Report) {
 	c01ShortCircuit(p, r, e)
 	c01Chain(p, r, e)
 	c01Calls(p, r, e)
+	c01OperandScope(p, r, e)
+	loopAliasRule(p, r, "R1.4", "vm")
 	linearityRules(p, r, "R1.5")
 	c01DynamicCompare(p, r)
 	r.Floor("R1.1", 70)
@@ -851,72 +853,113 @@ func descendingFills(info *types.Info, e *engines, clause *ast.CaseClause) (loop
 		}
 		return "", false
 	}
-	lenOf := eng.MadeLengths(info, env, clause.Body)
-	for _, st := range clause.Body {
-		switch st.(type) {
-		case *ast.ForStmt, *ast.RangeStmt:
-		default:
-			continue
-		}
-		pops := 0
-		ast.Inspect(st, func(n ast.Node) bool {
-			if c, isC := n.(*ast.CallExpr); isC {
-				if fn := eng.CalleeOf(info, c); fn != nil && e.vm.Prims[fn] == "pop" {
-					pops++
+	var analyse func(body []ast.Stmt, env *eng.AffEnv, depth int)
+	analyse = func(body []ast.Stmt, env *eng.AffEnv, depth int) {
+		lenOf := eng.MadeLengths(info, env, body)
+		for _, st := range body {
+			switch st.(type) {
+			case *ast.ForStmt, *ast.RangeStmt:
+			default:
+				// the popping loop may live in a helper of the machine (`in := vm.popArgs(call.Size)`):
+				// its body is analysed with its parameters bound to the arguments
+				if depth < 2 {
+					ast.Inspect(st, func(n ast.Node) bool {
+						c, ok := n.(*ast.CallExpr)
+						if !ok {
+							return true
+						}
+						fn := eng.CalleeOf(info, c)
+						if fn == nil || e.vm.Prims[fn] != "" {
+							return true
+						}
+						_, hfd := e.vm.Prog.DeclOf(fn)
+						if hfd == nil || hfd.Body == nil || hfd.Recv == nil || hfd == e.vm.Run || fn.Pkg() != e.vm.Prog.Pkg("vm").Types {
+							return true
+						}
+						if _, isPtr := hfd.Recv.List[0].Type.(*ast.StarExpr); !isPtr {
+							return true
+						}
+						sub := &eng.AffEnv{Info: info, Vars: map[types.Object]eng.Aff{}, Sym: env.Sym}
+						i := 0
+						if hfd.Type.Params != nil {
+							for _, f := range hfd.Type.Params.List {
+								for _, nm := range f.Names {
+									if i < len(c.Args) {
+										if a, ok := env.Eval(c.Args[i]); ok {
+											sub.Vars[info.Defs[nm]] = a
+										}
+									}
+									i++
+								}
+							}
+						}
+						analyse(hfd.Body.List, sub, depth+1)
+						return true
+					})
 				}
+				continue
 			}
-			return true
-		})
-		if pops == 0 {
-			continue
-		}
-		loops++
-		cl := eng.AnalyseCountedLoop(info, env, st, lenOf)
-		if !cl.OK {
-			ok, why = false, "the popping loop is not a counted loop: "+cl.Why
-			continue
-		}
-		// stores into an indexed collection
-		benv := &eng.AffEnv{Info: info, Vars: map[types.Object]eng.Aff{}, Sym: env.Sym}
-		benv.Val = func(x ast.Expr) (eng.Aff, bool) {
-			if c, ok := x.(*ast.CallExpr); ok && isBuiltinCall(info, c, "len") && len(c.Args) == 1 {
-				return lenOf(c.Args[0])
-			}
-			return eng.Aff{}, false
-		}
-		if cl.Var != nil {
-			benv.Vars[cl.Var] = cl.Val
-		}
-		ast.Inspect(cl.Body, func(n ast.Node) bool {
-			as, isAs := n.(*ast.AssignStmt)
-			if !isAs {
-				return true
-			}
-			for _, l := range as.Lhs {
-				ix, isIx := l.(*ast.IndexExpr)
-				if !isIx {
-					continue
-				}
-				if _, isSlice := info.TypeOf(ix.X).Underlying().(*types.Slice); !isSlice {
-					continue
-				}
-				// the collection that receives the values is a fresh make of this handler
-				if _, fresh := lenOf(ix.X); !fresh {
-					ok, why = false, "the values are collected into `"+eng.ExprStr(ix.X)+"`, which is not a slice made in this handler"
-				}
-				idx, isAff := benv.Eval(ix.Index)
-				want := cl.Trips.Add(eng.AffConst(1), -1).Add(eng.AffSym("T"), -1)
-				if !isAff || !idx.Equal(want) {
-					got := eng.ExprStr(ix.Index)
-					if isAff {
-						got = idx.String()
+			pops := 0
+			ast.Inspect(st, func(n ast.Node) bool {
+				if c, isC := n.(*ast.CallExpr); isC {
+					if fn := eng.CalleeOf(info, c); fn != nil && e.vm.Prims[fn] == "pop" {
+						pops++
 					}
-					ok, why = false, "iteration T (the T-th popped value) fills position `"+got+"`, not count-1-T = "+want.String()+": arguments/elements arrive in another order than written"
 				}
+				return true
+			})
+			if pops == 0 {
+				continue
 			}
-			return true
-		})
+			loops++
+			cl := eng.AnalyseCountedLoop(info, env, st, lenOf)
+			if !cl.OK {
+				ok, why = false, "the popping loop is not a counted loop: "+cl.Why
+				continue
+			}
+			// stores into an indexed collection
+			benv := &eng.AffEnv{Info: info, Vars: map[types.Object]eng.Aff{}, Sym: env.Sym}
+			benv.Val = func(x ast.Expr) (eng.Aff, bool) {
+				if c, ok := x.(*ast.CallExpr); ok && isBuiltinCall(info, c, "len") && len(c.Args) == 1 {
+					return lenOf(c.Args[0])
+				}
+				return eng.Aff{}, false
+			}
+			if cl.Var != nil {
+				benv.Vars[cl.Var] = cl.Val
+			}
+			ast.Inspect(cl.Body, func(n ast.Node) bool {
+				as, isAs := n.(*ast.AssignStmt)
+				if !isAs {
+					return true
+				}
+				for _, l := range as.Lhs {
+					ix, isIx := l.(*ast.IndexExpr)
+					if !isIx {
+						continue
+					}
+					if _, isSlice := info.TypeOf(ix.X).Underlying().(*types.Slice); !isSlice {
+						continue
+					}
+					// the collection that receives the values is a fresh make of this handler
+					if _, fresh := lenOf(ix.X); !fresh {
+						ok, why = false, "the values are collected into `"+eng.ExprStr(ix.X)+"`, which is not a slice made in this handler"
+					}
+					idx, isAff := benv.Eval(ix.Index)
+					want := cl.Trips.Add(eng.AffConst(1), -1).Add(eng.AffSym("T"), -1)
+					if !isAff || !idx.Equal(want) {
+						got := eng.ExprStr(ix.Index)
+						if isAff {
+							got = idx.String()
+						}
+						ok, why = false, "iteration T (the T-th popped value) fills position `"+got+"`, not count-1-T = "+want.String()+": arguments/elements arrive in another order than written"
+					}
+				}
+				return true
+			})
+		}
 	}
+	analyse(clause.Body, env, 0)
 	return
 }
 
@@ -1041,4 +1084,36 @@ func c01Controls() []core.Mutant {
 		{Name: "range membership fast path in the OpIn handler", File: V, Old: "\t\tcase OpIn:\n\t\t\tb := vm.pop()\n\t\t\ta := vm.pop()\n\t\t\tvm.push(in(a, b))", New: "\t\tcase OpIn:\n\t\t\tb := vm.pop()\n\t\t\ta := vm.pop()\n\t\t\tif xs, ok := b.([]int); ok {\n\t\t\t\tvm.push(len(xs) > 0 && a == xs[0])\n\t\t\t} else {\n\t\t\t\tvm.push(in(a, b))\n\t\t\t}", Rule: "R1.3", Construct: "OpIn/applies one primitive"},
 		{Name: "REFACTORING: comparison templates through an extracted helper", File: C, Silent: true, Old: "\tcase \"<\":\n\t\tc.compile(node.Left)\n\t\tc.compile(node.Right)\n\t\tc.emit(OpLess)\n", New: "\tcase \"<\":\n\t\tc.emitBinary(node, OpLess)\n", Edits: [][2]string{{"func (c *compiler) MatchesNode(", "func (c *compiler) emitBinary(node *ast.BinaryNode, op byte) {\n\tc.compile(node.Left)\n\tc.compile(node.Right)\n\tc.emit(op)\n}\n\nfunc (c *compiler) MatchesNode("}}},
 	}
+}
+
+// c01OperandScope (R1.1, scope clause): an operand of a builtin that is not its closure is an
+// expression of the ENCLOSING scope — in every template that opens a scope, the operands
+// compiled before the closure are compiled before the scope is opened (the closure, and only
+// it, sees the builtin's own variables).
+func c01OperandScope(p *core.Program, r *core.Report, e *engines) {
+	n := 0
+	for _, t := range e.em.AllTemplates() {
+		if t.Term == "panic" {
+			continue
+		}
+		open := -1
+		first := -1
+		for i, ev := range t.Events {
+			if ev.Kind == "instr" && open < 0 {
+				if s := e.sigs[ev.Op]; s != nil && s.Scope == "open" {
+					open = i
+				}
+			}
+			if ev.Kind == "child" && first < 0 {
+				first = i
+			}
+		}
+		if open < 0 {
+			continue
+		}
+		n++
+		r.Check(first >= 0 && first < open, "R1.1", t.Key()+"/first operand is evaluated in the enclosing scope", tplPos(p, e, t), "the first operand is compiled before the scope is opened",
+			"the template opens its scope before compiling its first operand: that operand is part of the enclosing expression (inside another builtin's closure it may be the outer element) and is now evaluated against the new, empty scope")
+	}
+	r.Analysed["scope_opening_templates"] = n
 }
